@@ -4,6 +4,7 @@ from vrun import Job
 LEVEL = 'exploration'
 RULE = ('case idx -> (suite, version) = table[idx % 75] (all 45 suites x the versions each exists in); '
         'buffer layout {mono, engine-split, two buffers} x size class {512,1024,2048,4096,16384}+overhead(+1) per side, '
+        'who narrows the version {client offers exactly it, server limited to it while the client offers 1.0-1.2, both capped}, '
         'transport chunk policy {1 byte, small, random, whole, mixed}, write policy, payload lengths around fragment '
         'boundaries {0,1,2,f-1,f,f+1,2f+3,random}, closing side; seeded by VERIF_SEED. A case is non-trivial when the '
         'handshake completed and both streams were delivered; distinct = distinct (suite,version,key kind,layouts,size classes) '
@@ -14,7 +15,7 @@ ASSUMPTIONS = [
     'seeder replaced by a fixed seed (hook H1) so that cases are reproducible',
 ]
 EVAL = ['cases']
-DISTINCT = ['config', 'schedule']
+DISTINCT = ['config', 'schedule', 'version_shape']
 REQUIRED = ['cases', 'sessions_completed', 'records_protected', 'c06_checks', 'param_compares',
             'ossl_sessions_completed', 'ossl_mfl_echoed']
 NW = 16
